@@ -280,6 +280,25 @@ class Builder:
         self.expect.append(("String", k1, v1))
         self.expect.append(("Entry", t, k, [(fk, v)]))
 
+    def resvtype(self, word, n):
+        """an ENTRY whose type merely starts with a reserved word: @comment<X>{k, f = {v}}, @string<X>{...}, @preamble<X>{...}
+        (biblatex's @commentary is such a type)"""
+        self.lit("@")
+        t0 = len(self.cs)
+        for ch in word:
+            self.cs.append(self.eng.sym_char(f"t{len(self.cs)}", ch + ch.upper()))
+        for _ in range(n):
+            self.cs.append(self.eng.sym_char(f"t{len(self.cs)}", "asS"))
+        t = (t0, len(self.cs))
+        self.lit("{")
+        k = (len(self.cs), len(self.cs) + 1)
+        self.lit("k, ")
+        fk = (len(self.cs), len(self.cs) + 1)
+        self.lit("f = ")
+        v = (len(self.cs), len(self.cs) + 3)
+        self.lit("{v}}")
+        self.expect.append(("Entry", t, k, [(fk, v)]))
+
     def string(self, kl=1, vl=2, wl=1, hw=0):
         self.lit("@")
         self.hole("S", 0, "")
